@@ -490,6 +490,7 @@ package parser
 //@     decreases len(v)
 //@     invariant len(v) >= 1
 //@     invariant[C16] written: bldLen(b) + len(v) + 1 <= len(s) - 2
+//@     invariant[C16] escaped: exists k Int :: 1 <= k && k < len(s) - 1 && byteOf(s, k) == 92
 //@     invariant[C11] text.b: bldOk(b)
 //@     invariant[C11] text.v: aligned(v)
 //@     invariant[C11] text.w: subwindow(v, s) && hi(v) == hi(s) - 1
@@ -621,6 +622,7 @@ package parser
 //@     invariant[C11] text.b: bldOk(b)
 //@     invariant[C11] text.v: aligned(v)
 //@     invariant[C11] text.w: subwindow(v, s) && hi(v) == hi(s) - 1
+//@     invariant[C16] escaped: exists k Int :: 1 <= k && k < len(s) - 1 && byteOf(s, k) == 92
 //@   loop 2
 //@     invariant[C04 C16] hex: forall k Int :: {byteOf(it_str, k)} 0 <= k && k < it_n ==> hexByte(byteOf(it_str, k))
 //@     invariant[C11] last: 0 <= it_n && (it_n > 3 ==> it_str[3] < 128)
